@@ -232,10 +232,7 @@ def gen_module(rng, params):
     # alignment
     if rng.random() < params.get("align_p", 0.3):
         for b in blocks + dblocks:
-            # (ARM64: a nop instruction of the program and a 4-byte nop of
-            # padding cannot be told apart by the byte matcher; code
-            # alignment is exercised on x86, where C10 lives)
-            if rng.random() < 0.3 and (isa != "arm64" or b["kind"] == "data"):
+            if rng.random() < 0.3:
                 b["align"] = rng.choice([2, 4, 8, 16])
         desc["alignment_table"] = True
     elif fmt == "pe":
@@ -471,7 +468,10 @@ def gen_patch(rng, model, params, world_labels, ids, allow_cf=True, in_data=Fals
             lines.append(it)
         else:
             if world_labels["all"] and isa == "x64":
-                lines.append({"v": "lea", "t": rng.choice(world_labels["all"])})
+                if rng.random() < 0.3:
+                    lines.append({"v": "cmpmi", "t": rng.choice(world_labels["all"]), "imm": rng.randint(1, 100)})
+                else:
+                    lines.append({"v": "lea", "t": rng.choice(world_labels["all"])})
             else:
                 lines.append({"v": "nop"})
     if own and rng.random() < 0.3 and allow_cf and not in_data:
@@ -494,14 +494,20 @@ def gen_patch(rng, model, params, world_labels, ids, allow_cf=True, in_data=Fals
             lines.insert(k, {"raw": f".cfi_adjust_cfa_offset {d}"})
             # ... at least the instruction at k+1 is enclosed
             lines.insert(rng.randrange(k + 2, len(lines) + 1), {"raw": f".cfi_adjust_cfa_offset -{d}"})
-    if params.get("patch_align_p", 0.0) and rng.random() < params["patch_align_p"] and lines:
+    if params.get("patch_align_p", 0.0) and isa != "arm64" and rng.random() < params["patch_align_p"] and lines:
         # an alignment requirement of the patch's own
         lines.insert(rng.randrange(len(lines)), {"raw": f".align {rng.choice([2, 4, 8, 16])}"})
-    if rng.random() < 0.15 and not in_data:
-        # trailing label: forces a new block after the patch
+    if rng.random() < 0.15:
+        # trailing label: forces a new block after the patch (in a data
+        # block: a label between the inserted bytes and the rest)
         nm = f"{tpre}{len(own)}"
         own.append((nm, True))
-        lines.append({"label": nm, "temp": True})
+        if lines and "raw" in lines[-1] and lines[-1]["raw"].startswith(".cfi") and rng.random() < 0.6:
+            # ... in front of the patch's last CFI directive: the directive
+            # then belongs to the (empty) block the label opens
+            lines.insert(len(lines) - 1, {"label": nm, "temp": True})
+        else:
+            lines.append({"label": nm, "temp": True})
     out = {"lines": lines}
     if params.get("other_sect_p", 0.0) and not in_data and isa != "arm64" and rng.random() < params["other_sect_p"]:
         # the patch also brings contents for another section (a string, a
@@ -649,8 +655,6 @@ def module_desc_ok(desc):
     """CFI of the module descriptor is well formed: displacements inside
     their block, .cfi_startproc/.cfi_endproc alternate, CFA defined."""
     isa = desc["isa"]
-    if isa == "arm64" and not desc.get("exotic") and any(b.get("align") and b["kind"] == "code" for sec in desc["sections"] for u in sec["units"] for b in u["blocks"]):
-        return False  # (see gen_module: no code alignment on ARM64)
     for sec in desc["sections"]:
         open_ = False
         for u in sec["units"]:
@@ -841,6 +845,8 @@ def gen_scope(rng, model, spans):
     def name_filter():
         if rng.random() < 0.35 or not names:
             return None
+        if rng.random() < 0.12:
+            return []  # an empty filter (e.g. an intersection that came out empty): selects nothing
         out = []
         for _ in range(rng.randint(1, 2)):
             r = rng.random()
